@@ -1153,8 +1153,8 @@ func c20URLs(t *testing.T, o *vOut, rng *mrand.Rand) {
 		if strings.ContainsRune(subj, 0xFFFD) {
 			continue
 		}
-		h := strings.ToLower(strings.TrimSuffix(hostOnly(subj), "."))
-		ip := net.ParseIP(hostOnly(h))
+		h := strings.ToLower(strings.TrimSuffix(vHostOnlyRef(subj), "."))
+		ip := net.ParseIP(vHostOnlyRef(h))
 		bytes := "-"
 		if ip != nil {
 			raw := []byte(ip)
